@@ -190,3 +190,137 @@ Section SanitizedP.
       apply andb_true_iff in Hall as [_ Ht]. rewrite Ht, Ek. unfold ident_start. now rewrite El.
   Qed.
 End SanitizedP.
+
+(* ---------- UTF-8: decode after encode ---------- *)
+Definition valid_rune (r : N) : Prop := r < 55296 \/ (57344 <= r /\ r < 1114112).
+
+Lemma b2n_n2b' n : n < 256 -> b2n (n2b n) = n.
+Proof. apply b2n_n2b. Qed.
+
+Lemma decode_encode_rune r rest :
+  valid_rune r -> decode_rune (encode_rune r ++ rest) = (r, length (encode_rune r)).
+Proof.
+  intros V. unfold encode_rune.
+  destruct (r <? 128) eqn:E1.
+  { cbn [app length decode_rune]. rewrite b2n_n2b by lia. now rewrite E1. }
+  destruct (r <? 2048) eqn:E2.
+  { cbn [app length decode_rune].
+    rewrite !b2n_n2b by lia.
+    replace (192 + r / 64 <? 128) with false by lia.
+    replace (192 + r / 64 <? 194) with false by lia.
+    replace (192 + r / 64 <? 224) with true by lia.
+    unfold cont. replace ((128 <=? 128 + r mod 64) && (128 + r mod 64 <? 192)) with true by lia.
+    f_equal. lia. }
+  destruct (r <? 65536) eqn:E3.
+  { cbn [app length decode_rune].
+    rewrite !b2n_n2b by lia.
+    replace (224 + r / 4096 <? 128) with false by lia.
+    replace (224 + r / 4096 <? 194) with false by lia.
+    replace (224 + r / 4096 <? 224) with false by lia.
+    replace (224 + r / 4096 <? 240) with true by lia.
+    unfold cont.
+    assert (H1 : ((if 224 + r / 4096 =? 224 then 160 else 128) <=? 128 + (r / 64) mod 64) = true).
+    { destruct (224 + r / 4096 =? 224) eqn:Q; lia. }
+    assert (H2 : (128 + (r / 64) mod 64 <? (if 224 + r / 4096 =? 237 then 160 else 192)) = true).
+    { destruct (224 + r / 4096 =? 237) eqn:Q; [|lia]. destruct V as [V|V]; lia. }
+    rewrite H1, H2.
+    replace ((128 <=? 128 + r mod 64) && (128 + r mod 64 <? 192)) with true by lia.
+    cbn [andb]. f_equal. lia. }
+  cbn [app length decode_rune].
+  assert (R : r < 1114112) by (destruct V; lia).
+  rewrite !b2n_n2b by lia.
+  replace (240 + r / 262144 <? 128) with false by lia.
+  replace (240 + r / 262144 <? 194) with false by lia.
+  replace (240 + r / 262144 <? 224) with false by lia.
+  replace (240 + r / 262144 <? 240) with false by lia.
+  replace (240 + r / 262144 <? 245) with true by lia.
+  unfold cont.
+  assert (H1 : ((if 240 + r / 262144 =? 240 then 144 else 128) <=? 128 + (r / 4096) mod 64) = true).
+  { destruct (240 + r / 262144 =? 240) eqn:Q; lia. }
+  assert (H2 : (128 + (r / 4096) mod 64 <? (if 240 + r / 262144 =? 244 then 144 else 192)) = true).
+  { destruct (240 + r / 262144 =? 244) eqn:Q; lia. }
+  rewrite H1, H2.
+  replace ((128 <=? 128 + (r / 64) mod 64) && (128 + (r / 64) mod 64 <? 192)) with true by lia.
+  replace ((128 <=? 128 + r mod 64) && (128 + r mod 64 <? 192)) with true by lia.
+  cbn [andb]. f_equal. lia.
+Qed.
+
+Lemma encode_rune_len r : (1 <= length (encode_rune r) <= 4)%nat.
+Proof.
+  unfold encode_rune. destruct (r <? 128); [cbn; lia|]. destruct (r <? 2048); [cbn; lia|].
+  destruct (r <? 65536); cbn; lia.
+Qed.
+
+Lemma decode_rune_valid bs : valid_rune (fst (decode_rune bs)).
+Proof.
+  assert (VE : valid_rune rune_error) by (unfold valid_rune, rune_error; lia).
+  unfold decode_rune. destruct bs as [|b0 r]; [exact VE|].
+  pose proof (b2n_lt b0).
+  destruct (b2n b0 <? 128) eqn:E1; [cbn [fst]; unfold valid_rune; lia|].
+  destruct (b2n b0 <? 194) eqn:E2; [exact VE|].
+  destruct (b2n b0 <? 224) eqn:E3.
+  { destruct r as [|b1 r]; [exact VE|]. pose proof (b2n_lt b1). unfold cont.
+    destruct ((128 <=? b2n b1) && (b2n b1 <? 192)) eqn:C; [|exact VE].
+    cbn [fst]. unfold valid_rune. lia. }
+  destruct (b2n b0 <? 240) eqn:E4.
+  { destruct r as [|b1 [|b2 r]]; try exact VE. pose proof (b2n_lt b1). pose proof (b2n_lt b2). unfold cont.
+    match goal with |- context [if ?c then _ else _] => destruct c eqn:C end; [|exact VE].
+    cbn [fst]. unfold valid_rune.
+    destruct (b2n b0 =? 224) eqn:Q1; destruct (b2n b0 =? 237) eqn:Q2; lia. }
+  destruct (b2n b0 <? 245) eqn:E5; [|exact VE].
+  destruct r as [|b1 [|b2 [|b3 r]]]; try exact VE.
+  pose proof (b2n_lt b1). pose proof (b2n_lt b2). pose proof (b2n_lt b3). unfold cont.
+  match goal with |- context [if ?c then _ else _] => destruct c eqn:C end; [|exact VE].
+  cbn [fst]. unfold valid_rune.
+  destruct (b2n b0 =? 240) eqn:Q1; destruct (b2n b0 =? 244) eqn:Q2; lia.
+Qed.
+
+Lemma decode_runes_fuel_valid : forall fuel bs, Forall valid_rune (decode_runes_fuel fuel bs).
+Proof.
+  induction fuel as [|f IH]; intros bs; cbn [decode_runes_fuel]; [constructor|].
+  destruct bs as [|b t]; [constructor|].
+  pose proof (decode_rune_valid (b :: t)) as V.
+  destruct (decode_rune (b :: t)) as [r n]. constructor; [exact V|apply IH].
+Qed.
+
+Lemma decode_runes_fuel_encode : forall rs fuel,
+  Forall valid_rune rs -> (length (encode_runes rs) <= fuel)%nat ->
+  decode_runes_fuel fuel (encode_runes rs) = rs.
+Proof.
+  induction rs as [|r t IH]; intros fuel V L.
+  - destruct fuel; reflexivity.
+  - inversion V as [|? ? Vr Vt]; subst.
+    unfold encode_runes in *. cbn [flat_map] in *. rewrite app_length in L.
+    pose proof (encode_rune_len r) as Lr.
+    destruct fuel as [|f]; [lia|]. cbn [decode_runes_fuel].
+    destruct (encode_rune r ++ flat_map encode_rune t) as [|b0 bt] eqn:EB.
+    { apply (f_equal (@length _)) in EB. rewrite app_length in EB. cbn in EB. lia. }
+    rewrite <- EB. rewrite (decode_encode_rune r _ Vr).
+    replace (Nat.max 1 (length (encode_rune r))) with (length (encode_rune r)) by lia.
+    rewrite skipn_app, skipn_all, Nat.sub_diag. cbn [app skipn].
+    f_equal. apply IH; [exact Vt|lia].
+Qed.
+
+Lemma decode_encode_runes rs : Forall valid_rune rs -> decode_runes (encode_runes rs) = rs.
+Proof. intros V. apply decode_runes_fuel_encode; [exact V|apply Nat.le_refl]. Qed.
+
+Section SanitizedBytesP.
+  Variable u_letter u_digit : N -> bool.
+  Hypothesis rune_error_not_letter : u_letter rune_error = false.
+
+  (* the statement on strings: ranging over the result of GoSanitized yields a
+     Go identifier, for every byte string (valid UTF-8 or not) *)
+  Theorem sanitized_valid_nonkeyword_bytes s :
+    go_identifier u_letter u_digit (decode_runes (go_sanitized u_letter u_digit s)) = true.
+  Proof.
+    unfold go_sanitized. rewrite decode_encode_runes.
+    - now apply sanitized_valid_nonkeyword.
+    - unfold go_sanitized_runes.
+      assert (V95 : valid_rune 95) by (unfold valid_rune; lia).
+      assert (VM : Forall valid_rune (map (sanitize_rune u_letter u_digit) (decode_runes s))).
+      { apply Forall_forall. intros x Hx. apply in_map_iff in Hx as [r [<- Hr]].
+        unfold sanitize_rune. destruct (u_letter r || u_digit r); [|exact V95].
+        pose proof (decode_runes_fuel_valid (length s) s) as F. rewrite Forall_forall in F. now apply F. }
+      match goal with |- context [if ?c then _ else _] => destruct c end; [constructor; assumption|exact VM].
+  Qed.
+End SanitizedBytesP.
